@@ -1,27 +1,30 @@
 #!/bin/sh
-# tools/seedtest.sh <ID> [<check ids...>]  : confirm a seeded change (from /tmp/wt-<ID>/_seed or seeded/<ID>) and run checks against it
-# 1. copy the seed into /verif/seeded/<ID>/   2. in a scratch worktree: demo passes without / fails with the patch
-# 3. apply the patch to /repo, run ./vcheck for the listed checks (default: <ID>), undo.
+# tools/seedtest.sh <ID> [<check ids...>]
+# Confirm a seeded change and run checks against it.  The patched tree lives in a scratch worktree of /repo
+# (SEDFITTER_REPO points the checks at it), so several seeds can be examined in parallel and /repo stays clean.
+#   1. copy the seed from /tmp/wt-<ID>/_seed into /verif/seeded/<ID>/ (if present)
+#   2. demo passes on the clean tree, fails with the patch; pytest on the patched tree
+#   3. ./vcheck <checks> against the patched tree; results appended to seeded/<ID>/result.txt
 set -u
 ID=$1; shift
 CHECKS=${*:-$ID}
 V=/verif
-mkdir -p $V/seeded/$ID
+mkdir -p $V/seeded/$ID $V/scratch
 if [ -d /tmp/wt-$ID/_seed ]; then cp /tmp/wt-$ID/_seed/patch.diff /tmp/wt-$ID/_seed/demo.py /tmp/wt-$ID/_seed/meta.json $V/seeded/$ID/ 2>/dev/null; fi
 S=/tmp/seedchk-$ID
-rm -rf $S; git -C /repo worktree add -q --detach $S HEAD || exit 3
-cp $V/seeded/$ID/demo.py $S/_demo.py
-sed -i "s#/tmp/wt-$ID#$S#g" $S/_demo.py
-( cd $S && timeout 600 /venv/bin/python _demo.py > /tmp/seed-$ID-clean.out 2>&1 ); CLEAN=$?
+git -C /repo worktree remove --force $S 2>/dev/null; rm -rf $S
+git -C /repo worktree add -q --detach $S HEAD || exit 3
+sed "s#/tmp/wt-$ID#$S#g" $V/seeded/$ID/demo.py > $S/_demo.py
+( cd $S && timeout 900 /venv/bin/python _demo.py > $V/scratch/seed-$ID-clean.out 2>&1 ); CLEAN=$?
 ( cd $S && git apply $V/seeded/$ID/patch.diff ) || { echo "$ID: patch does not apply"; git -C /repo worktree remove --force $S; exit 3; }
-( cd $S && timeout 600 /venv/bin/python _demo.py > /tmp/seed-$ID-mut.out 2>&1 ); MUT=$?
-( cd $S && timeout 900 /venv/bin/python -m pytest -q -p no:cacheprovider sedfitter 2>&1 | tail -1 > /tmp/seed-$ID-pytest.out )
-git -C /repo worktree remove --force $S
-echo "$ID: demo clean=$CLEAN mutated=$MUT pytest: $(cat /tmp/seed-$ID-pytest.out)"
-git -C /repo apply $V/seeded/$ID/patch.diff || { echo "cannot apply to /repo"; exit 3; }
+( cd $S && timeout 900 /venv/bin/python _demo.py > $V/scratch/seed-$ID-mut.out 2>&1 ); MUT=$?
+PYT=$( cd $S && timeout 1500 /venv/bin/python -m pytest -q -p no:cacheprovider sedfitter 2>&1 | tail -1 )
+OUT=$V/seeded/$ID/result.txt
+echo "seed $ID: demo on clean tree exit=$CLEAN, with patch exit=$MUT; pytest with patch: $PYT" > $OUT
 for c in $CHECKS; do
-  ( cd $V && timeout 3000 ./vcheck $c --tier quick > $V/scratch/seed-$ID-$c.log 2>&1 ); RC=$?
-  echo "  check $c exit=$RC $(grep -c '^VIOLATION' $V/scratch/seed-$ID-$c.log) violations; $(grep -m1 '^  ' $V/scratch/seed-$ID-$c.log | cut -c1-160)"
+  ( cd $V && SEDFITTER_REPO=$S VERIF_EVIDENCE_DIR=$V/scratch/seed-evidence-$ID VERIF_REPLAY_DIR=$V/scratch/seed-replays timeout 3600 ./vcheck $c --tier quick > $V/scratch/seed-$ID-$c.log 2>&1 ); RC=$?
+  echo "check $c against the patched tree: exit=$RC violations=$(grep -c '^VIOLATION' $V/scratch/seed-$ID-$c.log) inconclusive=$(grep -c '^INCONCLUSIVE' $V/scratch/seed-$ID-$c.log)" >> $OUT
+  grep -A1 -m2 '^VIOLATION' $V/scratch/seed-$ID-$c.log | grep '^  ' | cut -c1-220 >> $OUT
 done
-git -C /repo checkout -- .
-git -C /repo status --short | head -3
+git -C /repo worktree remove --force $S
+cat $OUT
